@@ -226,6 +226,31 @@ class Ctx:
         log("tlc %-40s generated=%s distinct=%s cases=%s %.1fs" % (name, gen, dist, ncases, info["wall_s"]))
         return info
 
+    def apalache(self, subsystem, module, cfg, init, inv, length, expect_error=False, timeout=300):
+        """Symbolic check with Apalache (used for inductive invariants: Init => Inv at length 0,
+        IndInit /\\ Next => Inv' at length 1). Returns True if the outcome is the expected one."""
+        d = self._stage_dir("apalache_%s_%s_%d%s" % (module, init, length, "_dev" if expect_error else ""), subsystem)
+        cmd = ["timeout", str(timeout), "apalache-mc", "check", "--config=" + cfg, "--init=" + init, "--inv=" + inv,
+               "--length=%d" % length, "--out-dir=" + os.path.join(d, "out"), module + ".tla"]
+        t0 = time.time()
+        r = subprocess.run(cmd, cwd=d, stdout=subprocess.PIPE, stderr=subprocess.STDOUT, text=True)
+        open(os.path.join(d, "apalache.log"), "w").write(r.stdout)
+        shutil.rmtree(os.path.join(d, "out"), ignore_errors=True)
+        noerr = "The outcome is: NoError" in r.stdout
+        founderr = "The outcome is: Error" in r.stdout
+        if not noerr and not founderr:
+            raise Broken("Apalache did not reach a verdict on %s (%s):\n%s" % (module, cfg, r.stdout[-1500:]))
+        ok = founderr if expect_error else noerr
+        self.notes.setdefault("apalache_runs", []).append(
+            {"module": module, "cfg": cfg, "init": init, "inv": inv, "length": length,
+             "outcome": "Error" if founderr else "NoError", "expected": "Error" if expect_error else "NoError",
+             "wall_s": round(time.time() - t0, 1)})
+        log("apalache %-30s init=%s inv=%s length=%d -> %s %.1fs" % (module, init, inv, length, "Error" if founderr else "NoError", time.time() - t0))
+        if not ok:
+            raise Broken("Apalache: %s --init=%s --inv=%s --length=%d gave %s, expected %s"
+                         % (module, init, inv, length, "Error" if founderr else "NoError", "Error" if expect_error else "NoError"))
+        return True
+
     def sany(self, subsystem, module):
         d = self._stage_dir("sany_" + module, subsystem)
         r = subprocess.run(["timeout", "120", "tla-sany", module + ".tla"], cwd=d,
